@@ -24,7 +24,7 @@ RULE = ('Hypothesis draws a small backend configuration (1-2 pols, 8/4 bit, sing
         'the directory listing (glob patched inside the harness). Non-trivial: >1 block and a non-template header.')
 ASSUMPTIONS = ['padding is header-relative as the property states', 'empty strings, quotes and keys longer than 8 characters are not valid cards and not generated',
                'float cards are compared after float()', 'listing order is injected by replacing glob in raw_utils inside the harness process']
-REQUIRED_CLASSES = ['hdrmod=0', 'hdrmod=1', 'hdrmod=31', 'directio=absent', 'directio=0', 'directio=1', 'template',
+REQUIRED_CLASSES = ['path_used_earlier', 'hdrmod=0', 'hdrmod=1', 'hdrmod=31', 'directio=absent', 'directio=0', 'directio=1', 'template',
                     'notemplate', 'files=1', 'files>1', 'last_partial', 'listing_unsorted', 'bogus_owned', 'array', 'single', 'user_pktstart', 'second_recording_same_backend', 'key_starts_with_END', 'blimpy_guppiraw']
 
 OWNED = ['NBITS', 'NPOL', 'OBSNCHAN', 'NANTS', 'BLOCSIZE', 'TBIN', 'CHAN_BW', 'OBSBW', 'OBSFREQ', 'SCANLEN']
@@ -72,7 +72,7 @@ def strategy_(draw, tier):
                 pktstart=draw(st.sampled_from([None, None, None, 0, 3, 999])),
                 again=draw(st.sampled_from([None, 1, 2, 3, 5, 7])),
                 target_mod=draw(st.sampled_from([None, None, 0, 1, 31, 16])),
-                perm_seed=draw(st.integers(0, 10 ** 6)))
+                perm_seed=draw(st.integers(0, 10 ** 6)), earlier_use=draw(st.sampled_from([False, False, True])))
 
 
 def strategy(tier):
@@ -141,6 +141,10 @@ def run_case(case, ctx):
         dio = bool(case['template'])
         obs.cls('directio=absent')
     stem = ctx.path('rec')
+    if case.get('earlier_use'):
+        # the same path held a different recording before, and the library's readers were used on it
+        obs.cls('path_used_earlier')
+        volt.earlier_use(stem, dict(c, directio=dio), nfiles=2)
     be = volt.build_backend(c, volt.build_source(c, with_tones=False), stats_common_prefix=False, period=1)
     user_copy = dict(hd)
     ok, _ = core.call(obs, 'record', volt.record, be, stem, c, header_dict=hd, load_template=case['template'])
